@@ -69,7 +69,12 @@ func c18MustURL(s string) *url.URL {
 
 var c18Date = time.Unix(1700000000, 0)
 
-func c18NewWorld() *c18World {
+func c18NewWorld() *c18World { return c18BuildWorld(false) }
+
+// c18BuildWorld(cold=true) builds the same shared inputs WITHOUT calling any serializer of the repository while
+// doing so (the Signature header value and the integrity-block bytes are literals, payloads stay un-encoded), so that
+// the first serializer call of the process can be made by several goroutines at once (C18/races, cold starts).
+func c18BuildWorld(cold bool) *c18World {
 	w := &c18World{}
 	mkBundle := func(ver bversion.Version) *bundle.Bundle {
 		b := &bundle.Bundle{Version: ver, PrimaryURL: c18MustURL("https://a.test/")}
@@ -99,6 +104,11 @@ func c18NewWorld() *c18World {
 			reqH.Set("Accept", "*/*")
 		}
 		e := signedexchange.NewExchange(v, "https://a.test/page", http.MethodGet, reqH, 200, http.Header{"Content-Type": {"text/html"}}, []byte("payload payload payload payload payload"))
+		if cold {
+			e.SignatureHeaderValue = `label; sig=*AAEC*; integrity="digest/mi-sha256-03"; date=1700000000; expires=1700003600`
+			w.ex[v] = e
+			continue
+		}
 		if err := e.MiEncodePayload(16); err != nil {
 			panic(err)
 		}
@@ -119,7 +129,11 @@ func c18NewWorld() *c18World {
 	w.ib = &integrityblock.IntegrityBlock{Magic: integrityblock.IntegrityBlockMagic, Version: integrityblock.VersionB1,
 		SignatureStack: []*integrityblock.IntegritySignature{{SignatureAttributes: integrityblock.SignatureAttributesMap{integrityblock.Ed25519publicKeyAttributeName: []byte(fixtures.Ed2.Pub)}, Signature: bytes.Repeat([]byte{5}, 64)}}}
 	w.hash = bytes.Repeat([]byte{3}, 64)
-	w.ibBytes, _ = w.ib.CborBytes()
+	if cold {
+		w.ibBytes = []byte{0x83, 0x41, 0x00, 0x41, 0x01, 0x80}
+	} else {
+		w.ibBytes, _ = w.ib.CborBytes()
+	}
 	w.pl = structuredheader.ParameterisedList{{Label: "label", Params: structuredheader.Parameters{"sig": []byte("sig-bytes")}}, {Label: "other", Params: structuredheader.Parameters{"n": int64(5)}}}
 	w.ll = structuredheader.ListOfLists{{structuredheader.Token("Accept-Language"), "en", "fr"}, {int64(1), []byte{1, 2}}}
 	pl := make([]byte, 40, 96)
@@ -800,7 +814,7 @@ func init() {
 				c.Outcome("skipped")
 				return
 			}
-			n := len(c18Sers) + len(c18Large)
+			n := len(c18Sers) + len(c18Large) + len(c18Sers) // pairs, large inputs, cold starts
 			type res struct {
 				i      int
 				out    string
@@ -845,6 +859,9 @@ func init() {
 						cur = l
 						pairs++
 						c.Transitions(1)
+					case strings.HasPrefix(l, "COLD-MISMATCH "):
+						c.Outcome("COLD-START OUTPUTS DIFFER")
+						c.Fail("C18/race:cold:"+strings.SplitN(l[len("COLD-MISMATCH "):], ":", 2)[0], "concurrent first calls of a serializer in a fresh process returned different results", cur, "identical results", l[:min(len(l), 600)])
 					case strings.Contains(l, "WARNING: DATA RACE"):
 						flush()
 						inRace = true
@@ -964,7 +981,7 @@ func init() {
 	register(&mc.Property{
 		ID:    "C18",
 		Level: "model_checking",
-		Rule:  "four parts. permutations: 12 serializer inputs (3 of them header maps holding one name under several case spellings, where a refusal must be the same refusal every time) x maps of 1..4 entries x every insertion permutation x 6 repeated calls, all bytes equal to the identity-order baseline. histories: every sequence of <=2 (quick) / <=3 (thorough) operations from 18 serializer calls + 4 input mutations + 25 calls whose destination fails at a chosen Write, on one shared world; each output = the same call on a freshly built world in the same logical state, input memory (incl. spare capacity) unchanged, earlier returned slices unchanged. schedules: every unordered pair of the 18 serializer calls as 2 logical threads (thorough: plus every ascending triple of 8 core calls as 3 threads, and every 2-call thread against a 1-call thread over those 8) on shared inputs, ALL interleavings at hooked operations (verifhook.Point sites, every Write of the harness-owned writer) with at most 2 preemptions; each thread's bytes = its solo bytes. large-inputs: 3 calls on inputs that reach size-dependent paths (bundle of 80 exchanges with different header blocks, 100 KiB MI payload, 70-entry map), 3 repeated calls on the shared input + 1 on a fresh copy. clock: 4 calls whose optional time fields are zero (signed subset, signed message, Signature header) or absent, repeated after 1.1 s of wall-clock time. races (auxiliary): every ordered pair as free-running goroutines in a -race build, and each large-input call against itself. Non-trivial = >=2 map entries / non-empty history / a complete schedule; distinct by (scenario, vector).",
+		Rule:  "four parts. permutations: 12 serializer inputs (3 of them header maps holding one name under several case spellings, where a refusal must be the same refusal every time) x maps of 1..4 entries x every insertion permutation x 6 repeated calls, all bytes equal to the identity-order baseline. histories: every sequence of <=2 (quick) / <=3 (thorough) operations from 18 serializer calls + 4 input mutations + 25 calls whose destination fails at a chosen Write, on one shared world; each output = the same call on a freshly built world in the same logical state, input memory (incl. spare capacity) unchanged, earlier returned slices unchanged. schedules: every unordered pair of the 18 serializer calls as 2 logical threads (thorough: plus every ascending triple of 8 core calls as 3 threads, and every 2-call thread against a 1-call thread over those 8) on shared inputs, ALL interleavings at hooked operations (verifhook.Point sites, every Write of the harness-owned writer) with at most 2 preemptions; each thread's bytes = its solo bytes. large-inputs: 3 calls on inputs that reach size-dependent paths (bundle of 80 exchanges with different header blocks, 100 KiB MI payload, 70-entry map), 3 repeated calls on the shared input + 1 on a fresh copy. clock: 4 calls whose optional time fields are zero (signed subset, signed message, Signature header) or absent, repeated after 1.1 s of wall-clock time. races (auxiliary): every ordered pair as free-running goroutines in a -race build, each large-input call against itself, and each serializer call as the FIRST call of a fresh process made by four goroutines at once (cold start, world built without serializer calls). Non-trivial = >=2 map entries / non-empty history / a complete schedule; distinct by (scenario, vector).",
 		Assumptions: []string{
 			"Go map iteration order is runtime-internal and not behind a seam: order-independence is decided by enumerating every insertion permutation (small maps iterate as rotations of insertion order) with repeated calls, not by controlling the iteration",
 			"the cooperative scheduler explores interleavings at hooked operations only; unsynchronised accesses between hooks are the race detector's job (separate free-running -race pass, auxiliary evidence, not model checking)",
@@ -1103,6 +1120,35 @@ var c18Large = []c18Ser{
 // c18RaceMain is the body of `harness race <i>` in the -race build: serializer i
 // against every serializer j as free-running goroutines.
 func c18RaceMain(i int) {
+	if n := len(c18Sers) + len(c18Large); i >= n {
+		// cold start: the FIRST serializer call of this process is made by four goroutines at once on a world that
+		// was built without any serializer call (lazily built package-level tables, sync.Once-less caches)
+		s := c18Sers[i-n]
+		w := c18BuildWorld(true)
+		fmt.Fprintf(os.Stderr, "PAIR %d %d %s | %s (cold start, 4 goroutines)\n", i, i, s.name, s.name)
+		start := make(chan struct{})
+		outs := make([]string, 4)
+		var wg sync.WaitGroup
+		for g := 0; g < 4; g++ {
+			g := g
+			wg.Add(1)
+			go func() {
+				defer wg.Done()
+				<-start
+				var buf bytes.Buffer
+				err := s.run(w, &buf)
+				outs[g] = fmt.Sprintf("err=%v bytes=%x", err, buf.Bytes())
+			}()
+		}
+		close(start)
+		wg.Wait()
+		for g := 1; g < 4; g++ {
+			if outs[g] != outs[0] {
+				fmt.Fprintf(os.Stderr, "COLD-MISMATCH %s: goroutine 0 %s | goroutine %d %s\n", s.name, outs[0], g, outs[g])
+			}
+		}
+		return
+	}
 	c18Init()
 	if i >= len(c18Sers) {
 		// a large-input call against itself (two free-running goroutines on the shared input)
